@@ -443,6 +443,85 @@ def _is_unwrapped(e, raw: Set[str]) -> bool:
     return False
 
 
+class _Kind:
+    """a pattern value known by its kind only"""
+
+    def __init__(self, kind):
+        self.kind = kind
+
+    def __repr__(self):
+        return f"<{self.kind} value>"
+
+
+class _KType:
+    def __init__(self, name):
+        self.name = name
+
+    def __repr__(self):
+        return self.name
+
+
+_ITERABLE_KINDS = {"str", "bytes", "list", "set", "tuple", "frozenset", "dict", "generator"}
+# which kinds of value are instances of which (abstract) class - the table Python's own isinstance answers from
+_KIND_TABLE = {
+    "Iterable": _ITERABLE_KINDS, "Collection": _ITERABLE_KINDS - {"generator"}, "Sized": _ITERABLE_KINDS - {"generator"}, "Container": _ITERABLE_KINDS - {"generator"},
+    "Sequence": {"str", "bytes", "list", "tuple"}, "Set": {"set", "frozenset"}, "AbstractSet": {"set", "frozenset"}, "Mapping": {"dict"}, "Hashable": {"str", "bytes", "tuple", "frozenset", "int", "none", "type"},
+    "str": {"str"}, "bytes": {"bytes"}, "bytearray": set(), "type": {"type"}, "list": {"list"}, "set": {"set"}, "tuple": {"tuple"}, "frozenset": {"frozenset"}, "dict": {"dict"},
+    "int": {"int"}, "float": set(), "bool": set(), "NoneType": {"none"},
+    "Match": set(), "CanBehaveLikeAVariable": set(), "SymbolicExpression": set(), "Variable": set(), "Literal": set(), "Symbol": {"object"},
+}
+
+
+class _KindNS:
+    def model_attr(self, a):
+        if a in _KIND_TABLE:
+            return _KType(a)
+        if a in ("abc",):
+            return self
+        raise AnalysisError(f"MATCH-KIND: unknown name .{a} in a test on the pattern value")
+
+
+def _k_isinstance(v, k):
+    if isinstance(k, tuple):
+        return any(_k_isinstance(v, x) for x in k)
+    if not isinstance(v, _Kind) or not isinstance(k, _KType) or k.name not in _KIND_TABLE:
+        raise AnalysisError(f"MATCH-KIND: isinstance({v!r}, {k!r}) is not in the kind table")
+    return v.kind in _KIND_TABLE[k.name]
+
+
+def _k_hasattr(v, name):
+    table = {"__iter__": "Iterable", "__len__": "Sized", "__contains__": "Container"}
+    if not isinstance(v, _Kind) or name not in table:
+        raise AnalysisError(f"MATCH-KIND: hasattr({v!r}, {name!r}) is not in the kind table")
+    return v.kind in _KIND_TABLE[table[name]]
+
+
+def match_kind(prog: Program) -> RuleResult:
+    """Which condition a plain pattern value stands for is decided by AttributeAssignment.is_iterable_value: a collection of values means
+    membership / containment, anything else - a string, bytes, a number, None, an object, a class - means equality with that value.
+    Evaluated for every kind of value over the table of Python's own isinstance / hasattr answers (a str is an Iterable and has
+    __iter__: a test that forgets to leave strings out makes `name="crate-2"` mean `name in "crate-2"`, a substring test)."""
+    r = RuleResult("MATCH-KIND", "a plain pattern value is a collection exactly when it is a list, set, tuple or frozenset", floor=8)
+    c = prog.cls("match.AttributeAssignment")
+    f = prog.lookup(c.qual, "is_iterable_value")
+    if f is None:
+        raise AnalysisError("MATCH-KIND: AttributeAssignment.is_iterable_value vanished")
+    g = {n: _KType(n) for n in _KIND_TABLE}
+    for ns in ("abc", "collections", "typing", "typing_extensions"):
+        g[ns] = _KindNS()
+    expected = {"str": False, "bytes": False, "int": False, "none": False, "object": False, "type": False, "list": True, "set": True, "tuple": True, "frozenset": True}
+    for kind, want in expected.items():
+        paths = explore(prog, f, [Sym("self")], self_type=c.qual, const_attrs={"self.assigned_value": _Kind(kind)}, globals_=g,
+                        funcs={"isinstance": _k_isinstance, "hasattr": _k_hasattr}, inline=lambda q: q.endswith(".is_iterable"), max_paths=50)
+        outs = {o[1] if o[0] == "return" else o[0] for _v, o, _c in paths}
+        r.check(outs == {want}, f"AttributeAssignment.is_iterable_value#{kind}", site(f), f"{kind} value -> {sorted(map(str, outs))}",
+                f"a {kind} value is {'a collection (membership)' if want else 'a single value (equality)'}",
+                f"a {kind} pattern value is taken for {'a single value' if want else 'a collection'} ({sorted(map(str, outs))}): "
+                + ("match(T)(name='crate-2') then means name in 'crate-2' - every element whose name is a substring of the literal (the empty string included) matches, and a "
+                   "non-string value raises TypeError" if not want else "match(T)(tags=[...]) then compares the attribute with the list itself instead of testing membership"))
+    return r
+
+
 def run(prog: Program, tier: str) -> List[RuleResult]:
     from .c03 import domain_cache
 
@@ -450,6 +529,6 @@ def run(prog: Program, tier: str) -> List[RuleResult]:
     from .c01 import ep_quant, ep_thread
 
     # match_any compiles to the existential quantifier: one answer per binding of the free variables
-    return [match_table(prog), match_iter(prog), match_factory(prog), match_memo_order(prog), match_ops(prog), ident_dedup(prog), domain_cache(prog), ep_quant(prog),
+    return [match_table(prog), match_kind(prog), match_iter(prog), match_factory(prog), match_memo_order(prog), match_ops(prog), ident_dedup(prog), domain_cache(prog), ep_quant(prog),
             # selected inner parts are evaluated under the bindings of the matched element: the row threading of C01
             ep_thread(prog)]
